@@ -77,6 +77,8 @@ def check_text(acc, text, name, case, site, m=None):
         acc.violation(site, f"full-parser-raises:{common.exc_name(e)}", cc, repr(e)[:300])
         return
     try:
+        # an earlier fast parse of the same text, its result edited by the caller, must not matter
+        space.scramble(cg.io.verilog_to_circuit(text, name, blackboxes=bb_objects(), fast=True))
         fast = cg.io.verilog_to_circuit(text, name, blackboxes=bb_objects(), fast=True)
     except Exception as e:  # noqa: BLE001
         acc.violation(site, f"fast-parser-raises:{common.exc_name(e)}", cc, repr(e)[:300])
